@@ -27,3 +27,12 @@ package tdrop
 //@   ensures[matched-counted] bmatch.matched(tf.matcher, record) && tf.targetRate < 100 ==> tf.totalMatched == old(tf.totalMatched) + 1
 //@        && tf.totalDropped == old(tf.totalDropped) + (result == base.DROP ? 1 : 0)
 //@   canary ensures bmatch.matched(tf.matcher, record) ==> result == base.DROP
+
+// ==== configuration: verify => construct (C16) ===================================================================================
+// an accepted percentage makes the sampling invariant hold initially (samplingok with both totals 0)
+//@ pure func cfgok(cfg *Config, s base.LogSchema) bool := len(cfg.Match) > 0 && bmatch.mcfgok(cfg.Match, s) && 1 <= cfg.Percentage && cfg.Percentage <= 100 && len(cfg.MetricLabel) > 0
+//@ func (cfg *Config) VerifyConfig(schema base.LogSchema) error
+//@   property C16
+//@   requires cfg != nil
+//@   modifies nothing
+//@   ensures[accepted-config-is-constructible] result == nil ==> cfgok(cfg, schema)
